@@ -341,4 +341,39 @@ func init() {
 		File: "reify.go", Old: "		case cfgReplaceValue, cfgArrReplaceValue:\n			// do nothing", New: "		case cfgReplaceValue:\n			// do nothing", Expect: "R13d/ucfg.reifySliceMerge/dispatch agreement"})
 	addControl(control{Prop: "C13", Name: "commit-through-a-local", Rule: "R13a", Kind: "refactor", Quick: true,
 		File: "reify.go", Old: "	orig.Set(pointerize(orig.Type(), to.Type(), to))\n	return nil\n}\n\nfunc reifyGetField(", New: "	res := pointerize(orig.Type(), to.Type(), to)\n	orig.Set(res)\n	return nil\n}\n\nfunc reifyGetField("})
+	// ---------------- C09 ----------------
+	addControl(control{Prop: "C09", Name: "map-keys-unsorted", Rule: "R09a", Kind: "mutant", Quick: true,
+		File: "merge.go", Old: "	sort.Slice(keys, func(i, j int) bool {\n		return mapKeyString(keys[i]) < mapKeyString(keys[j])\n	})\n", New: "	_ = sort.Strings\n", Expect: "R09a/ucfg.normalizeMapInto"})
+	addControl(control{Prop: "C09", Name: "merge-dict-ranges-over-map", Rule: "R09a", Kind: "mutant", Quick: true,
+		File: "merge.go", Old: "	for _, k := range sortedKeys(dict) {\n		v := dict[k]\n", New: "	for k, v := range dict {\n", Expect: "R09a/ucfg.mergeConfigDict"})
+	addControl(control{Prop: "C09", Name: "generic-reify-ranges-over-map", Rule: "R09a", Kind: "mutant",
+		File: "types.go", Old: "	case len(fields) > 0 && len(arr) == 0:\n		m := make(map[string]interface{})\n		for _, k := range sortedKeys(fields) {\n			v := fields[k]\n",
+		New: "	case len(fields) > 0 && len(arr) == 0:\n		m := make(map[string]interface{})\n		for k, v := range fields {\n", Expect: "R09a/(ucfg.cfgSub).reify"})
+	addControl(control{Prop: "C09", Name: "reify-map-ranges-over-map", Rule: "R09a", Kind: "mutant",
+		File: "reify.go", Old: "	for _, k := range sortedKeys(fields) {\n		value := fields[k]\n", New: "	for k, value := range fields {\n", Expect: "R09a/ucfg.reifyMap"})
+	addControl(control{Prop: "C09", Name: "validate-map-unsorted", Rule: "R09a", Kind: "mutant",
+		File: "validator.go", Old: "	sort.Slice(keys, func(i, j int) bool {\n		return mapKeyString(keys[i]) < mapKeyString(keys[j])\n	})\n", New: "	_ = sort.Strings\n", Expect: "R09a/ucfg.validateMap"})
+	addControl(control{Prop: "C09", Name: "sorted-keys-not-sorted", Rule: "R09a", Kind: "mutant", Quick: true,
+		File: "ucfg.go", Old: "	for k := range dict {\n		keys = append(keys, k)\n	}\n	sort.Strings(keys)\n	return keys", New: "	for k := range dict {\n		keys = append(keys, k)\n	}\n	_ = sort.Strings\n	return keys", Expect: "R09a/ucfg.sortedKeys"})
+	addControl(control{Prop: "C09", Name: "copy-children-share-last-context", Rule: "R09a", Kind: "mutant",
+		File: "types.go", Old: "	for name, f := range dict {\n		ctx := f.Context()\n		v := f.cpy(context{field: ctx.field, parent: newC})\n		fields.set(name, v)\n	}", New: "	var prev value\n	for name, f := range dict {\n		ctx := f.Context()\n		v := f.cpy(context{field: ctx.field, parent: newC})\n		if prev != nil {\n			v.setMeta(prev.meta())\n		}\n		prev = v\n		fields.set(name, v)\n	}", Expect: "R09a/(ucfg.cfgSub).cpy"})
+	addControl(control{Prop: "C09", Name: "copy-children-stops-early", Rule: "R09a", Kind: "mutant",
+		File: "types.go", Old: "	for name, f := range dict {\n		ctx := f.Context()\n		v := f.cpy(context{field: ctx.field, parent: newC})\n		fields.set(name, v)\n	}", New: "	for name, f := range dict {\n		ctx := f.Context()\n		v := f.cpy(context{field: ctx.field, parent: newC})\n		if v == nil {\n			break\n		}\n		fields.set(name, v)\n	}", Expect: "R09a/(ucfg.cfgSub).cpy"})
+	addControl(control{Prop: "C09", Name: "copy-children-into-shared-node", Rule: "R09a", Kind: "mutant",
+		File: "types.go", Old: "		v := f.cpy(context{field: ctx.field, parent: newC})\n		fields.set(name, v)\n	}", New: "		v := f.cpy(context{field: ctx.field, parent: newC})\n		fields.set(name, v)\n		fields.set(\"\", v)\n	}", Expect: "R09a/(ucfg.cfgSub).cpy"})
+	addControl(control{Prop: "C09", Name: "sorted-keys-by-sort-slice", Rule: "R09a", Kind: "refactor", Quick: true,
+		File: "ucfg.go", Old: "		keys = append(keys, k)\n	}\n	sort.Strings(keys)\n	return keys\n}\n\nfunc (f *fields) del", New: "		keys = append(keys, k)\n	}\n	sort.Slice(keys, func(i, j int) bool { return keys[i] < keys[j] })\n	return keys\n}\n\nfunc (f *fields) del"})
+	addControl(control{Prop: "C09", Name: "validate-map-indexed-loop", Rule: "R09a", Kind: "refactor",
+		File: "validator.go", Old: "	for _, key := range keys {\n		if err := tryRecursiveValidate(val.MapIndex(key), opts, nil); err != nil {", New: "	for i := 0; i < len(keys); i++ {\n		elem := val.MapIndex(keys[i])\n		if err := tryRecursiveValidate(elem, opts, nil); err != nil {"})
+	addControl(control{Prop: "C09", Name: "copy-children-collects-then-sets", Rule: "R09a", Kind: "refactor",
+		File: "types.go", Old: "	for name, f := range dict {\n		ctx := f.Context()\n		v := f.cpy(context{field: ctx.field, parent: newC})\n		fields.set(name, v)\n	}", New: "	for name := range dict {\n		f := dict[name]\n		child := context{field: f.Context().field, parent: newC}\n		fields.set(name, f.cpy(child))\n	}"})
+	addControl(control{Prop: "C09", Name: "dictionary-handed-to-library", Rule: "R09b", Kind: "mutant", Quick: true,
+		File: "types.go", Old: "	dict := c.c.fields.dict()\n	arr := c.c.fields.array()\n	fields := &fields{}\n", New: "	dict := c.c.fields.dict()\n	arr := c.c.fields.array()\n	fields := &fields{}\n	if reflect.DeepEqual(dict, arr) {\n		return nil\n	}\n", Expect: "R09b/(ucfg.cfgSub).cpy"})
+	// ---------------- C01 (dictionary loop forms) ----------------
+	addControl(control{Prop: "C01", Name: "sorted-keys-skips-empty-name", Rule: "R01d", Kind: "mutant", Quick: true,
+		File: "ucfg.go", Old: "	for k := range dict {\n		keys = append(keys, k)\n	}\n	sort.Strings(keys)", New: "	for k := range dict {\n		if k == \"\" {\n			continue\n		}\n		keys = append(keys, k)\n	}\n	sort.Strings(keys)", Expect: "R01d/ucfg.sortedKeys"})
+	addControl(control{Prop: "C01", Name: "dict-loop-value-from-destination", Rule: "R01d", Kind: "mutant",
+		File: "merge.go", Old: "	for _, k := range sortedKeys(dict) {\n		v := dict[k]\n", New: "	for _, k := range sortedKeys(dict) {\n		v := to.fields.d[k]\n		if v == nil {\n			v = dict[k]\n		}\n", Expect: "R01d/ucfg.mergeConfigDict/per-key store"})
+	addControl(control{Prop: "C01", Name: "dict-loop-as-map-range", Rule: "R01d", Kind: "refactor",
+		File: "merge.go", Old: "	for _, k := range sortedKeys(dict) {\n		v := dict[k]\n", New: "	for k, v := range dict {\n"})
 }
